@@ -701,8 +701,10 @@ def rule_r5(chk, prog, reg, table):
                         fn_, ast.FunctionDef):
                     fn_ = getattr(fn_, '_parent', None)
                 if fn_ is not None:
-                    from ..astutil import expand_locals
+                    from ..astutil import expand_locals, resolve_near
                     recv = unparse(expand_locals(fn_, c.func.value))
+                    if recv != 'self.mutator':
+                        recv = unparse(resolve_near(fn_, c.func.value, c))
                 ok = recv == 'self.mutator' or _ranges_over_pass(c)
                 chk.check('C14.R5', f'{modname}.{_enclosing_func_name(c)}',
                           c, ok, f'protocol method called on "{recv}", which '
@@ -1085,6 +1087,32 @@ def rule_r8(chk, prog, reg):
                                 cmds.add(c.value)
                 for c in cmds:
                     found.setdefault(c, set()).add(sub.slice.value)
+        # dispatch table: node[<p>] with p = TABLE[...get_ident()] / .get(..)
+        from ..astutil import resolve_near
+        for sub in ast.walk(f):
+            if isinstance(sub, ast.Subscript) and isinstance(
+                    sub.value, ast.Name) and sub.value.id == param and \
+                    isinstance(sub.slice, ast.Name):
+                src = resolve_near(f, sub.slice, sub)
+                tab, key = None, None
+                if isinstance(src, ast.Call) and isinstance(
+                        src.func, ast.Attribute) and src.func.attr == 'get' \
+                        and src.args:
+                    tab, key = src.func.value, src.args[0]
+                elif isinstance(src, ast.Subscript):
+                    tab, key = src.value, src.slice
+                if tab is None or not isinstance(tab, ast.Name):
+                    continue
+                key = resolve_near(f, key, sub)
+                if 'get_ident' not in unparse(key):
+                    continue
+                vals = m.globals.get(tab.id, [])
+                if len(vals) == 1 and isinstance(vals[0], ast.Dict):
+                    for k_, v_ in zip(vals[0].keys, vals[0].values):
+                        if isinstance(k_, ast.Constant) and isinstance(
+                                v_, ast.Constant) and isinstance(
+                                    v_.value, int):
+                            found.setdefault(k_.value, set()).add(v_.value)
         n += 1
         for cmd, pos in SORT_POS.items():
             got = found.get(cmd, set())
